@@ -277,6 +277,14 @@ def tileset_sources(F, S):
             whole = True
         if nd["k"] in CALLS and nd.get("fname") == "memcmp" and len(nd.get("args", [])) == 3 and th.term(nd["args"][2]) == ("const", 10):
             whole = True
+        if nd["k"] in CALLS and nd.get("fq") == "std::equal" and len(nd.get("args", [])) in (3, 4):
+            # std::equal over [begin, end) of one 10-byte array against the other's begin: all ten bytes
+            at = [th.term(a) for a in nd["args"]]
+            rng = [t for t in at[:2] if t[0] == "call" and t[1].startswith("std::array<char, 10>::") and t[3] == ()]
+            if len(rng) == 2 and rng[0][1].endswith("begin") and rng[1][1].endswith("end") and rng[0][2] == rng[1][2] \
+                    and at[2][0] == "call" and at[2][1].startswith("std::array<char, 10>::") and at[2][1].endswith("begin") and at[2][2] != rng[0][2] \
+                    and (rng[0][2] in markers or at[2][2] in markers):
+                whole = True
     good = good and whole
     inst = M + "::ReadTilesetHeader#marker"
     if good:
